@@ -311,3 +311,87 @@ func ZZ_C10_append_overlapping() {
 		zz.Assert(ok && x == want[i], "C10.append-overlapping/elements-as-go-append/"+id)
 	}
 }
+
+type zzRefHolder struct {
+	A []int64
+	M map[string]int64
+	P *int64
+}
+
+// ZZ_C10_reference_valued_slots: the same law for slots of typed containers
+// and struct fields whose values are themselves references (slices, maps,
+// pointers): what was read keeps referring to the object the slot held then,
+// whatever is stored into the slot afterwards.
+func ZZ_C10_reference_valued_slots() {
+	v0, v1 := zz.Int64(), zz.Int64()
+	cont := zz.Choose(5)
+	form := zz.Choose(5)
+	e := env.NewEnv()
+	var p0, p1, look string // the two slots; how to look at the int64 inside a value read from one
+	switch cont {
+	case 0:
+		e.Define("c", [][]int64{{v0}, {v1}})
+		p0, p1, look = "c[0]", "c[1]", "[0]"
+	case 1:
+		e.Define("c", []map[string]int64{{"k": v0}, {"k": v1}})
+		p0, p1, look = "c[0]", "c[1]", "[\"k\"]"
+	case 2:
+		h := reflect.New(reflect.TypeOf(zzRefHolder{}))
+		h.Elem().Field(0).Set(reflect.ValueOf([]int64{v0}))
+		e.DefineValue("c", h.Elem())
+		e.Define("other", []int64{v1})
+		p0, p1, look = "c.A", "other", "[0]"
+	case 3:
+		a, b := v0, v1
+		e.Define("c", []*int64{&a, &b})
+		p0, p1, look = "c[0]", "c[1]", ""
+	case 4:
+		e.Define("c", &zzRefHolder{M: map[string]int64{"k": v0}})
+		e.Define("other", map[string]int64{"k": v1})
+		p0, p1, look = "c.M", "other", "[\"k\"]"
+	}
+	deref := func(x string) string {
+		if cont == 3 {
+			return "*" + x
+		}
+		return x + look
+	}
+	var src string
+	var want []int64
+	switch form {
+	case 0:
+		src = "x = " + p0 + "; " + p0 + " = " + p1 + "; [" + deref("x") + "]"
+		want = []int64{v0}
+	case 1:
+		if cont == 2 || cont == 4 {
+			return
+		}
+		src = p0 + ", " + p1 + " = " + p1 + ", " + p0 + "; [" + deref(p0) + ", " + deref(p1) + "]"
+		want = []int64{v1, v0}
+	case 2:
+		src = "f = func(v) { " + p0 + " = " + p1 + "; return v }; y = f(" + p0 + "); [" + deref("y") + "]"
+		want = []int64{v0}
+	case 3:
+		src = "f = func() { defer func() { " + p0 + " = " + p1 + " }(); return " + p0 + " }; y = f(); [" + deref("y") + "]"
+		want = []int64{v0}
+	case 4:
+		src = "l = [" + p0 + "]; " + p0 + " = " + p1 + "; y = l[0]; [" + deref("y") + "]"
+		want = []int64{v0}
+	}
+	id := []string{"[][]int64", "[]map[string]int64", "struct-field-slice", "[]*int64", "struct-field-map"}[cont] + "/" + []string{"variable", "swap", "parameter", "result-under-deferred-store", "list-literal"}[form]
+	zz.Budget(400000)
+	v, err := Execute(e, &Options{Debug: false}, src)
+	zz.Assertf(err == nil, "C10.reference-valued-slots/no-error/"+id, src)
+	if err != nil {
+		return
+	}
+	l, ok := v.([]interface{})
+	zz.Assertf(ok && len(l) == len(want), "C10.reference-valued-slots/result-shape/"+id, src)
+	if !ok || len(l) != len(want) {
+		return
+	}
+	for i := range want {
+		x, isInt := l[i].(int64)
+		zz.Assertf(isInt && x == want[i], "C10.reference-valued-slots/read-keeps-the-object-read/"+id, src)
+	}
+}
